@@ -108,7 +108,7 @@ def run(cap):
 
     scales = {k: max(amax(np.abs(nc["curl_bOverB_" + k])), 1e-300) for k in "xyz"}
     zero_xlow = []
-    rot = {"code": 0.0, "n": 0}
+    ntilt = [0]
     nout = [0]
     for region in mesh.regions.values():
         xc = xpoint_cells(region)
@@ -152,25 +152,9 @@ def run(cap):
                 nR, nZ = nR * s2, nZ * s2
                 cosb = np.abs(exR * gR + exZ * gZ) / np.hypot(gR, gZ)
                 gyR, gyZ = nR / (hy * cosb), nZ / (hy * cosb)
-                # defining relation for the grad(y) the code's formula implies: grad(y).e_x = 0
-                tb = getattr(region.tanBeta, loc)
-                cgR = (BR - BZ * tb) / (Bp * hy)
-                cgZ = (BZ + BR * tb) / (Bp * hy)
-                cosang = np.abs(cgR * exR + cgZ * exZ) / np.hypot(cgR, cgZ)
-                m = np.abs(tb) > 0.1
-                if m.any():
-                    rot["code"] = max(rot["code"], amax(cosang[m]))
-                    rot["n"] += int(m.sum())
+                ntilt[0] += int((np.sqrt(np.maximum(0.0, 1 - cosb**2)) / cosb > 0.1).sum())
             cy = cR * gyR + cZ * gyZ
             czz = cz / R - Bt * hy / (Bp * R) * cy
-            if not orth:
-                # the same projection with grad(y) as the code's formula builds it: if the code's
-                # values agree with THIS, the mismatch with the true component is explained by the
-                # grad(y) rotation defect and by nothing else
-                cy_c = cR * cgR + cZ * cgZ
-                cz_c = cz / R - Bt * hy / (Bp * R) * cy_c
-                upd("nonorth-as-coded:curl_bOverB_y." + loc, np.where(M, np.abs(code["y"] - cy_c), 0.0), scales["y"], region, loc)
-                upd("nonorth-as-coded:curl_bOverB_z." + loc, np.where(M, np.abs(code["z"] - cz_c), 0.0), scales["z"], region, loc)
             sel = M
             if kink is not None:
                 # the tabulated fpol ends (constant continuation) inside the grid: its derivative
@@ -187,28 +171,18 @@ def run(cap):
             out.append(rec(key, cls, w["n"], w["worst"], 1e-13, where=w["where"]))
             continue
         comp = key.split("_")[-1][0]
-        if key.startswith("nonorth-as-coded"):
-            out.append(rec(key, cls, w["n"], w["worst"] / w["scale"], 1e-3, where=w["where"], note="code's values vs the oracle's curl projected on grad(y) as the code's formula builds it"))
-            continue
         if xy_form:
             # finite-difference formulation: agreement to the discretisation error of the grid
             med = float(np.median(errs)) / w["scale"]
             out.append(rec(key + " [x-y derivative form, median]", cls, w["n"], med, 0.05, where=w["where"], note="median |difference| relative to the field-wide scale"))
             continue
-        if comp == "x":
-            thr = 1e-4
-        else:
-            thr = 1e-3 if orth else 0.05
-        sig = None
-        if (not orth) and comp in "yz" and w["worst"] / w["scale"] > thr:
-            ac = W.get("nonorth-as-coded:" + key)
-            if ac is not None and ac["worst"] / ac["scale"] <= 1e-3:
-                sig = "explained by the grad(y) rotation: equals the projection on grad(y) as coded"
-        out.append(rec(key, cls, w["n"], w["worst"] / w["scale"], thr, where=w["where"], sig=sig, note="max |difference| relative to the field-wide scale"))
+        thr = 1e-4 if comp == "x" else 1e-3
+        out.append(rec(key, cls, w["n"], w["worst"] / w["scale"], thr, where=w["where"], note="max |difference| relative to the field-wide scale; non-orthogonal: grad(y) = unit normal of the measured e_x / (hy cos(beta)), beta measured by the oracle"))
     if nout[0]:
         out.append(rec("informational: grid points outside the psi data box left out", cls + "|outside-box", nout[0], 0, 0))
-    if rot["n"]:
-        out.append(rec("nonorth: grad(y) implied by the code's formula is perpendicular to e_x", cls, rot["n"], rot["code"], 0.1, sig="grad(y) rotated by -beta instead of +beta (|cos angle(grad y, e_x)| up to %.2f)" % rot["code"] if rot["code"] > 0.1 else None))
+    if not orth:
+        # the y/z components only test the grad(y) construction where the grid really is tilted
+        out.append(rec("informational: non-orthogonal points with |tan(beta)| > 0.1 among those compared", cls + "|tilted", ntilt[0], 0, 0))
     if zero_xlow:
         out.append(rec("curl_bOverB_y/z at xlow not identically zero", cls, len(zero_xlow), len(zero_xlow), 0, sig="y and z curvature components identically zero at xlow (non-orthogonal)"))
     return out
